@@ -2,11 +2,13 @@
 // `driver heap` (shared by harness/cmd/c05 and harness/cmd/c15heap).
 //
 // Heap items are (priority, id) pairs ordered by priority only, so the algorithm's choice among
-// ties is observable. Orders: nat, rev, coarse (a/4 < b/4); each less- or cmp-constructed.
+// ties is observable. Orders: nat, rev, coarse (a/4 < b/4); each less- or cmp-constructed, the compare
+// functions in four magnitude families (see OrdCmp).
 package heapcommon
 
 import (
 	"fmt"
+	"math"
 	"strconv"
 	"strings"
 
@@ -27,21 +29,58 @@ func OrdLess(ord string) func(a, b int) bool {
 	return func(a, b int) bool { return a < b }
 }
 
-func OrdCmp(ord string) func(a, b int) int {
+// OrdCmp is the three-way comparison of the order `ord` as the constructor `ctor` hands it to
+// NewCmp / NewPriorityQueueCmp. Only the sign of a compare result is meaningful, so the families differ
+// in the magnitudes they return (the property quantifies over "any orderings given as less or compare"):
+//
+//	cmp      -1 / 0 / +1 (what cmp.Compare, strings.Compare, time.Time.Compare return)
+//	cmpdiff  the difference of the order's keys: a-b, b-a, a/4-b/4 (the classic `return a - b`)
+//	cmpk     -1000 / 0 / +1000 (a scaled result)
+//	cmpbig   MinInt64 / 0 / MaxInt64 (the extreme results; their low 8/16/32 bits are 0 resp. all ones)
+func OrdCmp(ord, ctor string) func(a, b int) int {
 	l := OrdLess(ord)
+	neg, pos := -1, 1
+	switch ctor {
+	case "cmpdiff":
+		switch ord {
+		case "rev":
+			return func(a, b int) int { return b - a }
+		case "coarse":
+			return func(a, b int) int { return a/4 - b/4 }
+		}
+		return func(a, b int) int { return a - b }
+	case "cmpk":
+		neg, pos = -1000, 1000
+	case "cmpbig":
+		neg, pos = math.MinInt64, math.MaxInt64
+	}
 	return func(a, b int) int {
 		if l(a, b) {
-			return -1
+			return neg
 		}
 		if l(b, a) {
-			return 1
+			return pos
 		}
 		return 0
 	}
 }
 
 var Orders = []string{"nat", "rev", "coarse"}
-var Ctors = []string{"less", "cmp"}
+
+// Ctors: "less" = New / NewPriorityQueue; every other one goes through NewCmp / NewPriorityQueueCmp with
+// the compare function OrdCmp(ord, ctor).
+var Ctors = []string{"less", "cmp", "cmpdiff", "cmpk", "cmpbig"}
+
+// IsCmp: the constructor takes a compare function.
+func IsCmp(ctor string) bool { return strings.HasPrefix(ctor, "cmp") }
+
+// PickCtor draws a constructor: `less` one time in three, otherwise one of the compare families.
+func PickCtor(r *vlib.Rand) string {
+	if r.Intn(3) == 0 {
+		return "less"
+	}
+	return Ctors[1+r.Intn(len(Ctors)-1)]
+}
 
 type Op struct {
 	Name string `json:"op"`
@@ -63,7 +102,7 @@ func (o Op) Line() string {
 type Case struct {
 	Kind string   // "heap" | "pq"
 	Ord  string   // nat | rev | coarse
-	Ctor string   // less | cmp
+	Ctor string   // less | cmp | cmpdiff | cmpk | cmpbig
 	Init [][2]int // heap: (priority,id); pq: (key,priority)
 	U    int      // pq: keys observed are 0..U-1
 	Ops  []Op
@@ -206,8 +245,8 @@ func NewImpl(c Case) *Impl {
 		for i, p := range c.Init {
 			init[i] = xheap.KP[int, int]{K: p[0], P: p[1]}
 		}
-		if c.Ctor == "cmp" {
-			im.Q = xheap.NewPriorityQueueCmp[int, int](OrdCmp(c.Ord), init)
+		if IsCmp(c.Ctor) {
+			im.Q = xheap.NewPriorityQueueCmp[int, int](OrdCmp(c.Ord, c.Ctor), init)
 		} else {
 			im.Q = xheap.NewPriorityQueue[int, int](OrdLess(c.Ord), init)
 		}
@@ -217,8 +256,8 @@ func NewImpl(c Case) *Impl {
 	for i, p := range c.Init {
 		init[i] = Item{p[0], p[1]}
 	}
-	if c.Ctor == "cmp" {
-		cmp := OrdCmp(c.Ord)
+	if IsCmp(c.Ctor) {
+		cmp := OrdCmp(c.Ord, c.Ctor)
 		im.H = xheap.NewCmp(func(a, b Item) int { return cmp(a.P, b.P) }, init)
 	} else {
 		l := OrdLess(c.Ord)
